@@ -477,6 +477,8 @@ class Ref:
             st.put(enc_int(len(st.stack)))
         elif name == 'OP_SWAP':
             i, j = u8(), u8()
+            if i == j and i >= len(st.stack):
+                raise Stop('swapping an absent item with itself: error or no-op is not documented')
             if i != j:
                 if max(i, j) >= len(st.stack):
                     raise Err('swap depth')
